@@ -1,10 +1,15 @@
-/* C04: failure gates, output zeroing and oracle wiring of the key operations of src/secp256k1.c that
- * contain a curve or scalar multiplication.  The multiplication itself is an ASSUMED oracle with a
- * ghost log (assumed.h): the obligations say WHAT is handed to the oracle, WHICH oracle answers lead
- * to failure, and that the object written is exactly the oracle's answer (or all zero).
- * Every pointer argument NULL-or-object, every byte content.  One entry per unit (-DU_<ENTRY>).
- *
- * Object view: see pubkey_real.c (x = LE integer of bytes 0..31, y = bytes 32..63, invalid iff x = 0). */
+/* C04: failure cases and oracle usage of the key operations of src/secp256k1.c that contain a curve or scalar
+ * multiplication.  The multiplication is an ASSUMED oracle with a ghost log (assumed.h).
+ * Rule followed (audit 1): an obligation demands only what property C04 or include/secp256k1.h promises:
+ *   - ret is 1 exactly outside the documented failure cases;
+ *   - on FAILURE only ret and the documented output: "seckey ... unspecified value" + property "returns no usable
+ *     key" => the buffer fails seckey_verify; "pubkey will be set to an invalid value" => the object is one that
+ *     secp256k1_pubkey_load rejects; no call counts, no dummy operands, nothing about NULL-argument outputs;
+ *   - on SUCCESS the object written is the oracle's answer to a question about the RIGHT operands, compared as
+ *     values (mod p / mod n), operands of the commutative scalar product in either order, ng == NULL and
+ *     *ng == 0 alike, calls identified as "the logged call", never by "exactly one call".
+ * Opaque objects are decoded through the TU's own ge_from_bytes (spec.h views), never byte-wise.
+ * Every pointer argument NULL-or-object, every byte content.  One entry per unit (-DU_<ENTRY>). */
 #define LOG_SCALAR_MUL
 #define LOG_ECMULT
 #define LOG_ECMULT_GEN
@@ -13,12 +18,12 @@
 #include "spec.h"
 #include "src/secp256k1.c"
 #include "post.h"
+#define SPEC_VIEWS
+#include "spec.h"
 
 #define GEJ_EQ(a, b) (FE_EQ((a).x, (b).x) && FE_EQ((a).y, (b).y) && FE_EQ((a).z, (b).z) && (a).infinity == (b).infinity)
-/* the 64 bytes secp256k1_pubkey_save writes for an affine point with magnitude-1 coordinates: both reduced mod p */
-#define PK_IS(data, ge) (sp_eq(sp_le32(data), sp_modp(fval(&(ge).x))) && sp_eq(sp_le32((data) + 32), sp_modp(fval(&(ge).y))))
-/* the Jacobian point handed to ecmult is the loaded object: coordinates as stored, z = 1, finite */
-#define IS_LOADED(gej, xv, yv) (sp_eq(fval(&(gej).x), xv) && sp_eq(fval(&(gej).y), yv) && sp_eq(fval(&(gej).z), sp_u64(1)) && (gej).infinity == 0)
+/* the Jacobian point handed to ecmult is the key with coordinates (xv, yv) mod p, z = 1, finite */
+#define IS_POINT(gej, xv, yv) (sp_eq(sp_modp8(fval(&(gej).x)), xv) && sp_eq(sp_modp8(fval(&(gej).y)), yv) && sp_eq(sp_modp(fval(&(gej).z)), sp_u64(1)) && (gej).infinity == 0)
 #define LOGS_RESET() do { g_mul_n = 0; g_ecmult_n = 0; g_gen_n = 0; g_sg_n = 0; } while (0)
 
 #ifdef U_SECKEY_TWEAK_MUL
@@ -26,27 +31,29 @@ void h_seckey_tweak_mul(void) {
     secp256k1_context ctx;
     INPUT_ARR(unsigned char, key, 32); INPUT_ARR(unsigned char, tweak, 32); INPUT(_Bool, use_key); INPUT(_Bool, use_tweak); INPUT(size_t, k);
     unsigned char tweak0[32];
-    int ret; sp kv = sp_be32(key), tv = sp_be32(tweak);
+    int ret; sp kv = sp_be32(key), tv = sp_be32(tweak), ov;
     verif_ctx_init(&ctx); LOGS_RESET();
     __CPROVER_assume(k < 32);
     memcpy(tweak0, tweak, 32);
     ret = secp256k1_ec_seckey_tweak_mul(&ctx, use_key ? key : NULL, use_tweak ? tweak : NULL);
+    ov = sp_be32(key);
     __CPROVER_assert(g_error == 0, "C04 seckey_tweak_mul: error callback never invoked");
-    __CPROVER_assert(tweak[k] == tweak0[k], "C04 seckey_tweak_mul: tweak is not modified");
-    if (!use_key || !use_tweak) __CPROVER_assert(ret == 0 && g_illegal == 1 && g_mul_n == 0, "C04 seckey_tweak_mul: NULL argument is illegal and returns 0");
+    __CPROVER_assert(tweak[k] == tweak0[k], "C04 seckey_tweak_mul: tweak (const) is not modified");
+    if (!use_key || !use_tweak) __CPROVER_assert(ret == 0 && g_illegal == 1, "C04 seckey_tweak_mul: NULL argument is illegal and returns 0");
     else {
         __CPROVER_assert(g_illegal == 0, "C04 seckey_tweak_mul: no illegal callback for non-NULL arguments");
         __CPROVER_assert(ret == (sp_seckey_valid(kv) && sp_seckey_valid(tv)), "C04 seckey_tweak_mul: returns 1 exactly when key valid and 0 < tweak < n");
-        __CPROVER_assert(g_mul_n == 1, "C04 seckey_tweak_mul: exactly one scalar multiplication, on every path");
         if (ret == 1) {
-            __CPROVER_assert(sp_eq(sval(&g_mul_a0), kv) && sp_eq(sval(&g_mul_b0), tv), "C04 seckey_tweak_mul: the product requested is key * tweak");
-            __CPROVER_assert(sp_eq(sp_be32(key), sval(&g_mul_r0)), "C04 seckey_tweak_mul: output is the product returned by the multiplier");
+            __CPROVER_assert(g_mul_n >= 1, "C04 seckey_tweak_mul: success involves a scalar multiplication");
+            __CPROVER_assert((sp_eq(sval(&g_mul_a0), kv) && sp_eq(sval(&g_mul_b0), tv)) || (sp_eq(sval(&g_mul_a0), tv) && sp_eq(sval(&g_mul_b0), kv)), "C04 seckey_tweak_mul: the product requested is key * tweak (either operand order)");
+            __CPROVER_assert(sp_eq(ov, sval(&g_mul_r0)), "C04 seckey_tweak_mul: output is the product returned by the multiplier");
         }
-        if (ret == 0) __CPROVER_assert(key[k] == 0, "C04 seckey_tweak_mul: failure leaves 32 zero bytes (no usable key)");
+        if (ret == 0) __CPROVER_assert(!sp_seckey_valid(ov), "C04 seckey_tweak_mul: on failure the buffer holds no usable key (it fails seckey_verify)");
         if (ret == 1) REACH("seckey_tweak_mul success");
         if (sp_seckey_valid(kv) && sp_is0(tv)) REACH("seckey_tweak_mul zero tweak");
         if (sp_seckey_valid(kv) && !sp_lt(tv, sp_n())) REACH("seckey_tweak_mul tweak >= n");
     }
+    if (!use_key || !use_tweak) REACH("seckey_tweak_mul NULL argument");
 }
 #endif
 
@@ -55,33 +62,31 @@ void h_pubkey_create(void) {
     secp256k1_context ctx;
     INPUT(secp256k1_pubkey, pk); INPUT_ARR(unsigned char, key, 32); INPUT(_Bool, use_pk); INPUT(_Bool, use_key); INPUT(int, built); INPUT(size_t, k);
     unsigned char key0[32];
-    int ret; sp kv = sp_be32(key);
+    int ret, inv; sp kv = sp_be32(key), ox, oy;
     verif_ctx_init(&ctx); LOGS_RESET();
     ctx.ecmult_gen_ctx.built = built;     /* 0 is how secp256k1_context_static (and an unbuilt context) is recognised */
-    __CPROVER_assume(k < 64);
+    __CPROVER_assume(k < 32);
     memcpy(key0, key, 32);
     ret = secp256k1_ec_pubkey_create(&ctx, use_pk ? &pk : NULL, use_key ? key : NULL);
     __CPROVER_assert(g_error == 0, "C04 pubkey_create: error callback never invoked");
-    __CPROVER_assert(key[k & 31] == key0[k & 31], "C04 pubkey_create: secret key is not modified");
-    if (!use_pk) __CPROVER_assert(ret == 0 && g_illegal == 1 && g_gen_n == 0, "C04 pubkey_create: NULL pubkey is illegal and returns 0");
-    else if (!built) __CPROVER_assert(ret == 0 && g_illegal == 1 && g_gen_n == 0 && pk.data[k] == 0, "C04 pubkey_create: static/unbuilt context is illegal, returns 0, pubkey zeroed, no multiplication");
-    else if (!use_key) __CPROVER_assert(ret == 0 && g_illegal == 1 && g_gen_n == 0 && pk.data[k] == 0, "C04 pubkey_create: NULL seckey is illegal, returns 0, pubkey zeroed");
+    __CPROVER_assert(key[k] == key0[k], "C04 pubkey_create: secret key (const) is not modified");
+    if (!use_pk || !use_key) __CPROVER_assert(ret == 0 && g_illegal == 1, "C04 pubkey_create: NULL argument is illegal and returns 0");
+    else if (!built) __CPROVER_assert(ret == 0 && g_illegal == 1, "C04 pubkey_create: static/unbuilt context is illegal and returns 0");
     else {
+        view_pk64(pk.data, &ox, &oy, &inv);
         __CPROVER_assert(g_illegal == 0, "C04 pubkey_create: no illegal callback for proper arguments");
         __CPROVER_assert(ret == sp_seckey_valid(kv), "C04 pubkey_create: returns 1 exactly for 0 < key < n");
-        __CPROVER_assert(g_gen_n == 1 && g_sg_n == 1, "C04 pubkey_create: one generator multiplication and one affine conversion on every path (valid or not)");
-        if (ret == 0) {
-            __CPROVER_assert(pk.data[k] == 0, "C04 pubkey_create: invalid key leaves an all-zero (invalid) pubkey");
-            __CPROVER_assert(sp_eq(sval(&g_gen_a0), sp_u64(1)), "C04 pubkey_create: invalid key is masked to 1 before the multiplication");
-        } else {
-            __CPROVER_assert(sp_eq(sval(&g_gen_a0), kv), "C04 pubkey_create: the generator is multiplied by the key");
-            __CPROVER_assert(GEJ_EQ(g_sg_a0, g_gen_r0), "C04 pubkey_create: the point converted is the multiplication result");
-            __CPROVER_assert(PK_IS(pk.data, g_sg_r0), "C04 pubkey_create: pubkey holds the converted point, coordinates reduced mod p");
+        if (ret == 0) __CPROVER_assert(inv, "C04 pubkey_create: an invalid key yields no usable public key (the object is rejected by pubkey_load)");
+        else {
+            __CPROVER_assert(g_gen_n >= 1 && sp_eq(sval(&g_gen_a0), kv), "C04 pubkey_create: the generator is multiplied by the key");
+            __CPROVER_assert(g_sg_n >= 1 && GEJ_EQ(g_sg_a0, g_gen_r0), "C04 pubkey_create: the point converted is the multiplication result");
+            __CPROVER_assert(pk64_is(pk.data, &g_sg_r0.x, &g_sg_r0.y), "C04 pubkey_create: pubkey holds the converted point (coordinates mod p)");
         }
         if (ret == 1) REACH("pubkey_create success");
         if (ret == 0 && !sp_is0(kv)) REACH("pubkey_create key >= n");
     }
-    if (use_pk && !built) REACH("pubkey_create static context");
+    if (use_pk && use_key && !built) REACH("pubkey_create static context");
+    if (!use_pk) REACH("pubkey_create NULL pubkey");
 }
 #endif
 
@@ -98,10 +103,11 @@ void h_pubkey_tweak_mul(void) {
     secp256k1_context ctx;
     INPUT(secp256k1_pubkey, pk); INPUT_ARR(unsigned char, tweak, 32); INPUT(_Bool, use_pk); INPUT(_Bool, use_tweak); INPUT(size_t, k);
     unsigned char tweak0[32];
-    int ret, tweak_ok; sp xv = sp_le32(pk.data), yv = sp_le32(pk.data + 32), tv = sp_be32(tweak);
+    int ret, tweak_ok, in_inv, out_inv; sp xv, yv, ox, oy, tv = sp_be32(tweak);
     verif_ctx_init(&ctx); LOGS_RESET();
-    __CPROVER_assume(k < 64);
+    __CPROVER_assume(k < 32);
     memcpy(tweak0, tweak, 32);
+    view_pk64(pk.data, &xv, &yv, &in_inv);
 #ifdef U_PUBKEY_TWEAK_ADD
     tweak_ok = sp_lt(tv, sp_n());
 #else
@@ -109,37 +115,39 @@ void h_pubkey_tweak_mul(void) {
 #endif
     ret = FN(&ctx, use_pk ? &pk : NULL, use_tweak ? tweak : NULL);
     __CPROVER_assert(g_error == 0, NM "error callback never invoked");
-    __CPROVER_assert(tweak[k & 31] == tweak0[k & 31], NM "tweak is not modified");
-    if (!use_pk || !use_tweak) __CPROVER_assert(ret == 0 && g_illegal == 1 && g_ecmult_n == 0, NM "NULL argument is illegal and returns 0");
+    __CPROVER_assert(tweak[k] == tweak0[k], NM "tweak (const) is not modified");
+    if (!use_pk || !use_tweak) __CPROVER_assert(ret == 0 && g_illegal == 1, NM "NULL argument is illegal and returns 0");
+    else if (in_inv) { if (tweak_ok) __CPROVER_assert(ret == 0 && g_illegal == 1, NM "invalid pubkey object is illegal and returns 0"); else __CPROVER_assert(ret == 0, NM "invalid pubkey object and bad tweak return 0"); }
     else {
-        if (ret == 0) __CPROVER_assert(pk.data[k] == 0, NM "every failure leaves an all-zero (invalid) pubkey");
-        if (!tweak_ok) __CPROVER_assert(ret == 0 && g_ecmult_n == 0, NM "out-of-range tweak returns 0 without any curve work");
-        if (sp_is0(xv)) __CPROVER_assert(ret == 0 && g_ecmult_n == 0, NM "invalid pubkey object returns 0 without any curve work");
-        if (sp_is0(xv) && tweak_ok) __CPROVER_assert(g_illegal == 1, NM "invalid pubkey object is reported through the illegal callback");
-        if (!sp_is0(xv)) __CPROVER_assert(g_illegal == 0, NM "no illegal callback for a valid pubkey object");
-        if (!sp_is0(xv) && tweak_ok) {
-            __CPROVER_assert(g_ecmult_n == 1 && IS_LOADED(g_ecmult_a0, xv, yv), NM "exactly one ecmult, on the loaded public key");
+        view_pk64(pk.data, &ox, &oy, &out_inv);
+        __CPROVER_assert(g_illegal == 0, NM "no illegal callback for a valid pubkey object");
+        if (ret == 0) __CPROVER_assert(out_inv, NM "on failure the pubkey is set to an invalid value (rejected by pubkey_load)");
+        if (!tweak_ok) __CPROVER_assert(ret == 0, NM "out-of-range tweak returns 0");
+        else {
+            __CPROVER_assert(g_ecmult_n >= 1 && IS_POINT(g_ecmult_a0, xv, yv), NM "the point multiplied is the public key");
 #ifdef U_PUBKEY_TWEAK_ADD
-            __CPROVER_assert(g_ecmult_has_na0 && sp_eq(sval(&g_ecmult_na0), sp_u64(1)) && g_ecmult_has_ng0 && sp_eq(sval(&g_ecmult_ng0), tv), NM "ecmult computes 1*P + tweak*G");
+            __CPROVER_assert(g_ecmult_has_na0 && sp_eq(sval(&g_ecmult_na0), sp_u64(1)) && (sp_is0(tv) ? (!g_ecmult_has_ng0 || sp_is0(sval(&g_ecmult_ng0))) : (g_ecmult_has_ng0 && sp_eq(sval(&g_ecmult_ng0), tv))), NM "ecmult computes 1*P + tweak*G");
             __CPROVER_assert(ret == !g_ecmult_r0.infinity, NM "fails exactly when the sum is the point at infinity");
 #else
-            __CPROVER_assert(g_ecmult_has_na0 && sp_eq(sval(&g_ecmult_na0), tv) && !g_ecmult_has_ng0, NM "ecmult computes tweak*P + nothing");
+            __CPROVER_assert(g_ecmult_has_na0 && sp_eq(sval(&g_ecmult_na0), tv) && (!g_ecmult_has_ng0 || sp_is0(sval(&g_ecmult_ng0))), NM "ecmult computes tweak*P (+ 0*G)");
             __CPROVER_assert(ret == 1, NM "valid pubkey and 0 < tweak < n succeeds");
 #endif
             if (ret == 1) {
-                __CPROVER_assert(g_sg_n == 1 && GEJ_EQ(g_sg_a0, g_ecmult_r0), NM "the point converted is the ecmult result");
-                __CPROVER_assert(PK_IS(pk.data, g_sg_r0), NM "pubkey holds the converted point, coordinates reduced mod p");
-            } else __CPROVER_assert(g_sg_n == 0, NM "no conversion of a rejected result");
+                __CPROVER_assert(g_sg_n >= 1 && GEJ_EQ(g_sg_a0, g_ecmult_r0), NM "the point converted is the ecmult result");
+                __CPROVER_assert(pk64_is(pk.data, &g_sg_r0.x, &g_sg_r0.y), NM "pubkey holds the converted point (coordinates mod p)");
+            }
         }
         if (ret == 1) REACH("pubkey_tweak success");
-        if (!sp_is0(xv) && !sp_lt(tv, sp_n())) REACH("pubkey_tweak tweak >= n");
-        if (!sp_is0(xv) && sp_eq(tv, sp_n())) REACH("pubkey_tweak tweak == n");
+        if (!sp_lt(tv, sp_n())) REACH("pubkey_tweak tweak >= n");
+        if (sp_eq(tv, sp_n())) REACH("pubkey_tweak tweak == n");
 #ifdef U_PUBKEY_TWEAK_ADD
-        if (!sp_is0(xv) && tweak_ok && ret == 0) REACH("pubkey_tweak_add sum at infinity");
+        if (tweak_ok && ret == 0) REACH("pubkey_tweak_add sum at infinity");
         if (ret == 1 && sp_is0(tv)) REACH("pubkey_tweak_add zero tweak accepted");
 #else
-        if (!sp_is0(xv) && sp_is0(tv)) REACH("pubkey_tweak_mul zero tweak");
+        if (sp_is0(tv)) REACH("pubkey_tweak_mul zero tweak");
 #endif
     }
+    if (use_pk && use_tweak && in_inv) REACH("pubkey_tweak invalid pubkey object");
+    if (!use_pk || !use_tweak) REACH("pubkey_tweak NULL argument");
 }
 #endif
